@@ -2,12 +2,16 @@ import GqlModel.Validate.Engine
 /-
   rules/values_of_correct_type.go
 
-  Crash sites kept explicit:
-  * `fieldValue.VariableDefinition.Variable` in the `@oneOf` branch: the link is nil for an
-    undefined variable and for a variable in a fragment that no operation has reached (DESIGN §7
-    R2a, R2b) → `panic nilDeref`;
-  * `value.Definition.Fields[0]` in the same branch: index out of range when the definition has
-    no fields.
+  No crash site is left in the repaired rule body:
+  * `fieldValue.VariableDefinition.Variable` in the `@oneOf` branch is guarded by
+    `VariableDefinition != nil` (repair of R2a / R2b);
+  * the `@oneOf` null message names `value.Children[0].Name` (there is exactly one child at that
+    point), no longer `value.Definition.Fields[0].Name` (index out of range for a definition
+    without fields);
+  * the explicit `panic(fmt.Errorf("unhandled %T", value))` is the `default` of a switch over the
+    ten value kinds, all of which have a case: unreachable (the model's `ValueKind` has exactly
+    these ten constructors).
+  So the step function is total (`Rule.stateless`).
 -/
 namespace Gql.Validate.Rules
 open Gql Gql.Validate
@@ -47,34 +51,26 @@ def missingRequired (dfn : Definition) (v : Value) : List FieldDef → List RErr
     else missingRequired dfn v rest
 
 /-- the closure run for one `@oneOf` directive of the definition -/
-def oneOfCheck (l : Links) (dfn : Definition) (v : Value) : Except Bytes (List RErr) :=
+def oneOfCheck (l : Links) (dfn : Definition) (v : Value) : List RErr :=
   match v.children with
-  | .cons _ fv _ .nil =>
+  | .cons n fv _ .nil =>
     if fv.kind == .null then
-      match dfn.fields with
-      | [] => .error (indexOutOfRange 0 0)
-      | f0 :: _ => .ok [errAt (str "Field \"" ++ dfn.name ++ str "." ++ f0.name ++ str "\" must be non-null.") fv.pos]
+      [errAt (str "Field \"" ++ dfn.name ++ str "." ++ n ++ str "\" must be non-null.") fv.pos]
     else if fv.kind == .variable then
       match l.varDef fv.pos.start with
-      | none => .ok []        -- `isVariable` requires `VariableDefinition != nil` (repair of R2a/R2b)
+      | none => []        -- `isVariable` requires `VariableDefinition != nil` (repair of R2a/R2b)
       | some vd =>
         if !vd.type.nonNull then
-          .ok [errAt (str "Variable " ++ dq vd.var ++ str " must be non-nullable to be used for OneOf Input Object "
+          [errAt (str "Variable " ++ dq vd.var ++ str " must be non-nullable to be used for OneOf Input Object "
             ++ dq dfn.name ++ str ".") fv.pos]
-        else .ok []
-    else .ok []
-  | _ => .ok [errAt (str "OneOf Input Object " ++ dq dfn.name ++ str " must specify exactly one key.") v.pos]
+        else []
+    else []
+  | _ => [errAt (str "OneOf Input Object " ++ dq dfn.name ++ str " must specify exactly one key.") v.pos]
 
-def oneOfChecks (l : Links) (dfn : Definition) (v : Value) : List Directive → Except Bytes (List RErr)
-  | [] => .ok []
+def oneOfChecks (l : Links) (dfn : Definition) (v : Value) : List Directive → List RErr
+  | [] => []
   | dir :: rest =>
-    if dir.name == str "oneOf" then
-      match oneOfCheck l dfn v with
-      | .error m => .error m
-      | .ok e1 =>
-        match oneOfChecks l dfn v rest with
-        | .error m => .error m
-        | .ok e2 => .ok (e1 ++ e2)
+    if dir.name == str "oneOf" then oneOfCheck l dfn v ++ oneOfChecks l dfn v rest
     else oneOfChecks l dfn v rest
 
 def unknownInputFields (dfn : Definition) : Children → List RErr
@@ -87,49 +83,54 @@ def unknownInputFields (dfn : Definition) : Children → List RErr
 
 def enumPfx : Bytes := str "Did you mean the enum value"
 
-def valuesOfCorrectTypeStep (_ : SV) (_ : QueryDoc) (e : Event) : Except Bytes (List RErr) :=
+def valuesOfCorrectTypeStep (_ : SV) (_ : QueryDoc) (e : Event) : List RErr :=
   match e.p with
   | .value v (some expected) (some dfn) =>
     let e0 : List RErr :=
       if v.kind == .null && expected.nonNull then
         [errAt (str "Expected value of type " ++ dq expected.render ++ str ", found " ++ valueString v ++ str ".") v.pos]
       else []
-    if dfn.kind == .scalar && !defOneOf dfn builtinScalars then .ok e0
+    if dfn.kind == .scalar && !defOneOf dfn builtinScalars then e0
     else
       let possibleEnums : List Bytes := if dfn.kind == .enum then dfn.enumValues.map (·.name) else []
+      -- `_, err := value.Value(nil)`: only a malformed leaf is an error (never in a parsed document)
       let e1 : List RErr := if evalErr e.links v then [unexpectedType v expected dfn] else []
-      let unexpectedIf (c : Bool) : Except Bytes (List RErr) :=
-        .ok (e0 ++ e1 ++ (if c then [unexpectedType v expected dfn] else []))
+      let unexpectedIf (c : Bool) : List RErr :=
+        e0 ++ e1 ++ (if c then [unexpectedType v expected dfn] else [])
       match v.kind with
-      | .null => .ok (e0 ++ e1)
+      | .null => e0 ++ e1
       | .list =>
         match expected with
         | .named _ _ _ => unexpectedIf true
         | .list _ _ _ => unexpectedIf false
-      | .int => unexpectedIf (!defOneOf dfn [str "Int", str "Float", str "ID"])
-      | .float => unexpectedIf (!defOneOf dfn [str "Float"])
+      | .int =>
+        if !defOneOf dfn [str "Int", str "Float", str "ID"] then unexpectedIf true
+        else if defOneOf dfn [str "Int"] then unexpectedIf (parseIntErr 32 v.raw != .none)   -- Int is 32 bits
+        else unexpectedIf false
+      | .float =>
+        if !defOneOf dfn [str "Float"] then unexpectedIf true
+        else unexpectedIf (floatErr v.raw)                                                   -- Float is a finite double
       | .string | .block =>
         if dfn.kind == .enum then
-          .ok (e0 ++ e1 ++ [errAtS (str "Enum " ++ dq expected.render ++ str " cannot represent non-enum value: "
-            ++ valueString v ++ str ".") (suggestListQuoted enumPfx v.raw possibleEnums) v.pos])
+          e0 ++ e1 ++ [errAtS (str "Enum " ++ dq expected.render ++ str " cannot represent non-enum value: "
+            ++ valueString v ++ str ".") (suggestListQuoted enumPfx v.raw possibleEnums) v.pos]
         else unexpectedIf (!defOneOf dfn [str "String", str "ID"])
       | .enum =>
         if dfn.kind != .enum then
-          .ok (e0 ++ e1 ++ [errAtS (unexpectedTypeMessageOnly v expected dfn)
-            (suggestListUnquoted enumPfx v.raw possibleEnums) v.pos])
+          e0 ++ e1 ++ [errAtS (unexpectedTypeMessageOnly v expected dfn)
+            (suggestListUnquoted enumPfx v.raw possibleEnums) v.pos]
         else if !(dfn.enumValues.any (·.name == v.raw)) then
-          .ok (e0 ++ e1 ++ [errAtS (str "Value " ++ dq (valueString v) ++ str " does not exist in " ++ dq expected.render
-            ++ str " enum.") (suggestListQuoted enumPfx v.raw possibleEnums) v.pos])
-        else .ok (e0 ++ e1)
+          e0 ++ e1 ++ [errAtS (str "Value " ++ dq (valueString v) ++ str " does not exist in " ++ dq expected.render
+            ++ str " enum.") (suggestListQuoted enumPfx v.raw possibleEnums) v.pos]
+        else e0 ++ e1
       | .boolean => unexpectedIf (!defOneOf dfn [str "Boolean"])
       | .object =>
-        match oneOfChecks e.links dfn v dfn.dirs with
-        | .error m => .error m
-        | .ok e3 => .ok (e0 ++ e1 ++ missingRequired dfn v dfn.fields ++ e3 ++ unknownInputFields dfn v.children)
-      | .variable => .ok (e0 ++ e1)
-  | _ => .ok []
+        if dfn.kind != .inputObject then unexpectedIf true     -- an object literal where a scalar or an enum is expected
+        else e0 ++ e1 ++ missingRequired dfn v dfn.fields ++ oneOfChecks e.links dfn v dfn.dirs ++ unknownInputFields dfn v.children
+      | .variable => e0 ++ e1
+  | _ => []
 
-def valuesOfCorrectType : Rule := Rule.statelessP (str "ValuesOfCorrectType") valuesOfCorrectTypeStep
+def valuesOfCorrectType : Rule := Rule.stateless (str "ValuesOfCorrectType") valuesOfCorrectTypeStep
 def valuesOfCorrectTypeWithoutSuggestions : Rule :=
   Rule.withoutSuggestions (str "ValuesOfCorrectTypeWithoutSuggestions") valuesOfCorrectType
 
